@@ -207,6 +207,26 @@ def oracle_refine(cms, thr, p, out, mods):
             sel = SEL_F9 if M.selector_F9(cms[s][c], int(x0), int(y0), r) else None
             fails.append((f"peak at cell {(x0, y0)} of map ({s},{c}) moved to {(x, y)}: more than half a patch "
                           f"(p={p})", sel))
+    # locality of the refined peaks: every map alone gives the same refined points      c06_refine_uses_own_map
+    B, C = len(cms), len(cms[0])
+    if B > 1 or C > 1:
+        torch, pf, _ = mods
+        for s in range(B):
+            for c in range(C):
+                alone = peaks_out(pf.find_local_peaks(M.to_tensor([[cms[s][c]]], torch), threshold=float(thr),
+                                                      refinement="integral", integral_patch_size=p))
+                here = [(x, y) for (x, y, _, s2, c2) in out if (s2, c2) == (s, c)]
+                cells = [(x0, y0) for (x0, y0, _, s2, c2) in rough if (s2, c2) == (s, c)]
+                if len(alone) != len(here):
+                    fails.append((f"map ({s},{c}): {len(here)} refined peaks in the batch, {len(alone)} alone", None))
+                    continue
+                r = (p - 1) // 2 if p % 2 else p // 2
+                for (xa, ya, _, _, _), (xb, yb), (x0, y0) in zip(alone, here, cells):
+                    if M.selector_F9(cms[s][c], int(x0), int(y0), r):
+                        continue            # division by a small / cancelling sum: ill-conditioned in float
+                    if not (abs(xa - xb) <= 1e-4 * (1 + abs(xa)) and abs(ya - yb) <= 1e-4 * (1 + abs(ya))):
+                        fails.append((f"map ({s},{c}) peak at {(x0, y0)}: refined to {(xb, yb)} in the batch, "
+                                      f"{(xa, ya)} when the map is processed alone", None))
     return fails
 
 
